@@ -18,7 +18,15 @@ NBYTES = {"I": 4, "U": 4, "L": 8, "Q": 8}
 def gen_keys(rng, kk, n):
     lo, hi = BOUNDS[kk]
     style = rng.choice(["small", "wide", "extremes", "onebyte", "topbit", "dups"] if n < 300 else
-                       ["mixed", "wide", "topbit", "mixed", "onebyte"])
+                       ["mixed", "wide", "topbit", "mixed", "onebyte", "unique", "unique"])
+    if style == "unique":
+        # no repeated key anywhere, and only the b low-order bytes vary (b = 2 .. width): the radix
+        # sort skips constant bytes, so the parity of b decides which buffer holds the result
+        b = rng.randint(2, NBYTES[kk])
+        span = 256 ** b
+        nblocks = (hi - lo + 1) // span
+        base = lo + span * rng.randrange(nblocks)
+        return [base + x for x in rng.sample(range(span), min(n, span))]
     out = []
     for _ in range(n):
         if style == "small":
